@@ -1153,6 +1153,17 @@ def _monitor(ctx):
     return pa, wl, mon
 
 
+def _iterates_whole_list(it, name):
+    """`name`, `name + [...]`, `[...] + name`, `list(name)`, `tuple(name)`: every element of the list is visited."""
+    if isinstance(it, ast.Name):
+        return it.id == name
+    if isinstance(it, ast.BinOp) and isinstance(it.op, ast.Add):
+        return _iterates_whole_list(it.left, name) or _iterates_whole_list(it.right, name)
+    if isinstance(it, ast.Call) and isinstance(it.func, ast.Name) and it.func.id in ("list", "tuple", "reversed", "sorted") and len(it.args) == 1:
+        return _iterates_whole_list(it.args[0], name)
+    return False
+
+
 def _exitcode_var(test):
     for n in ast.walk(test):
         if isinstance(n, ast.Attribute) and n.attr == "exitcode":
@@ -1280,7 +1291,7 @@ def rule_dead(ctx):
         kills_workers = False
         for n in body:
             for f in ast.walk(n):
-                if isinstance(f, ast.For) and isinstance(f.iter, ast.Name) and f.iter.id == wl and isinstance(f.target, ast.Name):
+                if isinstance(f, ast.For) and _iterates_whole_list(f.iter, wl) and isinstance(f.target, ast.Name):
                     if any(isinstance(c, ast.Call) and isinstance(c.func, ast.Attribute) and c.func.attr in ("kill", "terminate")
                            and dotted(c.func.value) == f.target.id for c in ast.walk(f)):
                         kills_workers = True
